@@ -46,7 +46,7 @@ Definition all_ofty : list (option fty) := None :: map Some all_fty.
 Definition all_shape : list shape :=
   map Plain all_fty
   ++ map (fun x => match x with (i, e, r) => Array i e r end) (list_prod (list_prod all_ofty obools) bools)
-  ++ map Map all_ofty.
+  ++ map (fun x => Map (fst x) (snd x)) (list_prod all_ofty bools).
 Definition all_props : list prop :=
   map (fun x => match x with (n, s, r, o) => mkProp n s r o end)
       (list_prod (list_prod (list_prod bools all_shape) bools) bools).
@@ -106,11 +106,12 @@ Lemma ofty_complete t : In t all_ofty.
 Proof. destruct t as [t|]; [right; apply in_map; apply fty_complete|left; reflexivity]. Qed.
 Lemma shape_complete s : In s all_shape.
 Proof.
-  unfold all_shape. destruct s as [t|i e r|i].
+  unfold all_shape. destruct s as [t|i e r|i r].
   - apply in_or_app; left. apply in_map. apply fty_complete.
   - apply in_or_app; right. apply in_or_app; left. apply in_map_iff. exists (i, e, r). split; [reflexivity|].
     repeat apply in_prod; auto using ofty_complete, obools_complete, bools_complete.
-  - apply in_or_app; right. apply in_or_app; right. apply in_map. apply ofty_complete.
+  - apply in_or_app; right. apply in_or_app; right. apply in_map_iff. exists (i, r). split; [reflexivity|].
+    apply in_prod; auto using ofty_complete, bools_complete.
 Qed.
 Lemma all_props_complete p : In p all_props.
 Proof.
@@ -170,9 +171,6 @@ Definition gen_ext (v : string) := find (fun r => match r with (v', _, _, _, _, 
 Definition import_by_context (fn x : string) : bool :=
   (* a value is added by visitEnumNode, which ensures the import when any option has info *)
   (String.eqb fn "enumBuilder.addValue" && String.eqb x "ext_j5pb.E_EnumValue")
-  (* a service file always holds the methods' request objects; visitObjectNode ensures j5ExtImport *)
-  || (String.eqb fn "conversionVisitor.visitServiceNode" && String.eqb x "ext_j5pb.E_Service")
-  || (String.eqb fn "conversionVisitor.visitServiceMethodNode" && String.eqb x "ext_j5pb.E_Method")
   (* a field lives in an object/oneof; visitObjectNode / visitOneofNode ensure j5ExtImport *)
   || (String.eqb fn "buildField" && String.eqb x "ext_j5pb.E_Field").
 Definition gen_site_typed (r : string * string * string * string * string * string * list string * bool) : bool :=
@@ -231,7 +229,7 @@ Definition field_cover (p : prop) : bool :=
   end.
 Definition has_any (p : prop) : bool :=
   match p_shape p with
-  | Plain (TAny _) | Array (Some (TAny _)) _ _ | Map (Some (TAny _)) => true
+  | Plain (TAny _) | Array (Some (TAny _)) _ _ | Map (Some (TAny _)) _ => true
   | _ => false
   end.
 Definition accepted_language (p : prop) : bool :=
